@@ -51,6 +51,33 @@ impl From<Child> for Keyed {
         Self(c)
     }
 }
+/// An individual with a large inline payload (`BYTES` bytes next to the child record): block sizes,
+/// chunk lengths or buffers that are computed from `size_of::<Individual>()` see unusual values.
+#[derive(Clone, Debug)]
+pub struct Bulky<const BYTES: usize> {
+    pub child: Child,
+    pub pad: [u8; BYTES],
+}
+impl<const BYTES: usize> From<Child> for Bulky<BYTES> {
+    fn from(child: Child) -> Self {
+        let fill = child.word as u8;
+        Self { child, pad: [fill; BYTES] }
+    }
+}
+impl<const BYTES: usize> IndLike for Bulky<BYTES> {
+    fn child(&self) -> &Child {
+        &self.child
+    }
+}
+impl<const BYTES: usize> PopLike for Vec<Bulky<BYTES>> {
+    type Ind = Bulky<BYTES>;
+    const NAME: &'static str = "Vec of individuals with a large inline payload";
+    const SEQUENCE: bool = true;
+    fn members(&self) -> Vec<Child> {
+        self.iter().map(|b| b.child.clone()).collect()
+    }
+}
+
 pub trait IndLike: From<Child> + Clone + Send + Sync + 'static {
     fn child(&self) -> &Child;
 }
@@ -208,7 +235,7 @@ pub struct Case {
     pub size: usize,
     pub rounds: Vec<Round>,
     pub delays: Vec<u8>,
-    /// 0 Vec, 1 VecDeque, 2 BTreeSet, 3 HashSet
+    /// 0 Vec, 1 VecDeque, 2 BTreeSet, 3 HashSet, 4..6 Vec of individuals with 5000 / 40000 / 70000 bytes inline
     #[serde(default)]
     pub kind: u8,
     /// see `Maker::modulus`
@@ -230,12 +257,18 @@ fn pool(i: u8) -> &'static rayon::ThreadPool {
 }
 
 pub fn oracle(c: &Case, probe: &mut Probe) -> Result<(), Fail> {
-    probe.label(format!("population kind {}", ["Vec", "VecDeque", "BTreeSet", "HashSet"][usize::from(c.kind % 4)]));
-    match c.kind % 4 {
+    probe.label(format!(
+        "population kind {}",
+        ["Vec", "VecDeque", "BTreeSet", "HashSet", "Vec of 5000-byte individuals", "Vec of 40000-byte individuals", "Vec of 70000-byte individuals"][usize::from(c.kind % 7)]
+    ));
+    match c.kind % 7 {
         0 => oracle_for::<Vec<Child>>(c, probe),
         1 => oracle_for::<std::collections::VecDeque<Child>>(c, probe),
         2 => oracle_for::<BTreeSet<Keyed>>(c, probe),
-        _ => oracle_for::<std::collections::HashSet<Keyed>>(c, probe),
+        3 => oracle_for::<std::collections::HashSet<Keyed>>(c, probe),
+        4 => oracle_for::<Vec<Bulky<5000>>>(c, probe),
+        5 => oracle_for::<Vec<Bulky<40_000>>>(c, probe),
+        _ => oracle_for::<Vec<Bulky<70_000>>>(c, probe),
     }
 }
 
@@ -457,7 +490,12 @@ fn strategy() -> BoxedStrategy<Case> {
         } else {
             prop::collection::vec(prop_oneof![6 => Just(0u8), 1 => 1u8..4], 1..8).boxed()
         };
-        let kind = prop_oneof![5 => Just(0u8), 1 => Just(1u8), 2 => Just(2u8), 1 => Just(3u8)];
+        // individuals with a large inline payload only in populations of up to 300 (a 6000 x 70000-byte population is 420 MB)
+        let kind = if size <= 300 {
+            prop_oneof![5 => Just(0u8), 1 => Just(1u8), 2 => Just(2u8), 1 => Just(3u8), 1 => 4u8..7].boxed()
+        } else {
+            prop_oneof![5 => Just(0u8), 1 => Just(1u8), 2 => Just(2u8), 1 => Just(3u8)].boxed()
+        };
         let modulus = prop_oneof![2 => Just(0u8), 3 => 1u8..=8, 1 => any::<u8>()];
         (Just(size), prop::collection::vec(round, 1..5), delays, kind, modulus)
     })
@@ -466,7 +504,7 @@ fn strategy() -> BoxedStrategy<Case> {
 }
 
 pub fn run(ctx: &mut Ctx) {
-    ctx.rule = "population sizes {0, 1, 2..64, 127..300, 1000, 2047..6000} held in a Vec, VecDeque, BTreeSet or HashSet (the set kinds merge children with equal keys, so a step can shrink the population and the next step must make as many children as the population then has); 1-4 consecutive generation steps per case on one Generation value, each serial or parallel inside a rayon pool of 1/2/3/4/8/16 threads; the child maker is a probe that records the address and a hash of the population it is shown, draws one word from the generator it is handed, yields/sleeps according to a generated delay script and fails at generated call positions. Oracle after Ok: the new population consists of exactly population-size children produced from the previous population - those made in this round plus, at most, children left over from failed attempts since the population last changed - in order of production for serial steps (key set for the merging kinds), and has the same size unless it merges, every call saw the old population, all drawn words pairwise distinct within and across rounds; after Err: the error is one the probe raised and the population is unchanged. non-trivial = size >= 2 and (a failing child or >= 2 threads); distinct by JSON encoding".into();
+    ctx.rule = "population sizes {0, 1, 2..64, 127..300, 1000, 2047..6000} held in a Vec, VecDeque, BTreeSet or HashSet, or (up to 300) a Vec of individuals with 5000 / 40000 / 70000 bytes of inline payload (the set kinds merge children with equal keys, so a step can shrink the population and the next step must make as many children as the population then has); 1-4 consecutive generation steps per case on one Generation value, each serial or parallel inside a rayon pool of 1/2/3/4/8/16 threads; the child maker is a probe that records the address and a hash of the population it is shown, draws one word from the generator it is handed, yields/sleeps according to a generated delay script and fails at generated call positions. Oracle after Ok: the new population consists of exactly population-size children produced from the previous population - those made in this round plus, at most, children left over from failed attempts since the population last changed - in order of production for serial steps (key set for the merging kinds), and has the same size unless it merges, every call saw the old population, all drawn words pairwise distinct within and across rounds; after Err: the error is one the probe raised and the population is unchanged. non-trivial = size >= 2 and (a failing child or >= 2 threads); distinct by JSON encoding".into();
     ctx.assumptions.push("interleavings are perturbed (pool size x delay script), not enumerated: rayon's scheduler is not under the harness's control".into());
     let n = ctx.tier.pick(12_000u32, 400_000);
     let saved = ctx.threads;
